@@ -26,6 +26,7 @@
  * Every history runs on a fresh runtime (one execution = one history). */
 #include "abti.h"
 #include "common.h"
+#include "c17_asan.h"
 
 #define NSLOT 3
 #define MAXRANK 5
@@ -59,7 +60,7 @@ static const cfg_t cfgs[] = {
     { "all histories d3, 3 slots, ranks 0..4", 1, 3, 3, 3, 5, F_ALL, 1 },
     /* BFS tree with canonical-state dedup */
     { "bfs-dedup D5 L1, 3 slots, ranks 0..4", 1, 5, 1, 3, 5, F_ALL, 1 },
-    { "bfs-dedup D5 L2, 3 slots, ranks 0..3", 1, 5, 2, 3, 4, F_ALL, 1 },
+    { "bfs-dedup D5 L2, 3 slots, ranks 0..3", 0, 5, 2, 3, 4, F_ALL, 1 },
     /* rank management only (no join/revive), deeper */
     { "ranks only: all histories d4, 2 slots, ranks 0..3", 1, 4, 4, 2, 4,
       F_CREATE | F_CREATE_R | F_SETRANK | F_FREE, 1 },
@@ -419,6 +420,8 @@ static void apply_real(int op)
             abtmc_check(ret == expect, "join_code", "%s returned %d", nm, ret);
             break;
         case K_REVIVE:
+            if (before.st[slot] == S_JOINED)
+                c17_unpoison_main_sched_stack(xs[slot]); /* ASan only */
             ret = ABT_xstream_revive(xs[slot]);
             abtmc_check(ret == expect, "revive_code",
                         "%s returned %d, expected %d (stream %s)", nm, ret,
